@@ -119,8 +119,14 @@ class Backend:
       fd = fedjax.SQLiteFederatedData.new(self.path)
       self.opened.append(fd)
       return fd
+    # every open() fills an equal mapping in another key order (a loader that
+    # walks its shards in whatever order they come): what the dataset yields is
+    # a function of the mapping, not of the order its keys were inserted in
+    self.opens = getattr(self, 'opens', 0) + 1
+    k = self.opens % max(1, len(self.spec))
+    spec = (self.spec[k:] + self.spec[:k])[::(-1 if self.opens % 2 else 1)]
     mem = fedjax.InMemoryFederatedData(
-        {i: {k: v.copy() for k, v in e.items()} for i, e in self.spec})
+        {i: {k_: v.copy() for k_, v in e.items()} for i, e in spec})
     if self.kind == 'subset':
       # the generic subset wrapper over all ids: same mapping, its own
       # shuffled_clients implementation.  The id list (an Iterable[ClientId])
